@@ -159,7 +159,7 @@ func (e *Engine) verifyFnOnce(fn *ssa.Function, opts *VCOpts, post func(fr *Fram
 				}
 				t, err := env.evalBool(en.Expr)
 				if err != nil {
-					if !ct.Default {
+					if !ct.Default && !en.Inherited {
 						q.note(fmt.Sprintf("contract of %s: ensures %d: %v", fnKey(fn), i, err))
 						res.Unsupported = append(res.Unsupported, fmt.Sprintf("ensures %d: %v", i, err))
 					}
